@@ -1,9 +1,10 @@
 import Verif.Model.Front.Lexer
 import Verif.Spec.Tokens
 import Verif.Spec.LineCol
+import Verif.Proofs.LexerWalk
 /-! Helper lemmas for C37 (lexer port). -/
 namespace Verif.Proofs.Lexer
-open Verif.Model.Front Verif.Model.Front.Lexer Verif.Spec.Tokens
+open Verif.Model.Front Verif.Model.Front.Lexer Verif.Spec.Tokens Verif.Proofs.LexerWalk
 
 /-! ### frame: what the non-emitting primitives leave alone -/
 
@@ -127,6 +128,24 @@ theorem cinv_setEndOffset (l : L) (v : Nat) (h : CInv l) : CInv { l with endOffs
 
 def OkErr (l : L) : Prop := l.err = none ∨ l.err = some .tokenLimit
 
+/-- positions: the current word starts at a rune boundary; as long as all tokens so far are good the running
+    start position is the true position of that boundary; the tokens so far satisfy `ExactRev` -/
+def K (l : L) : Prop :=
+  ∃ p0, Walk l.input 0 ⟨1, 0⟩ l.startOffset p0 ∧ (AllGood l.input l.toks → l.startPos = p0) ∧ ExactRev l.input l.toks
+
+theorem K_frame {l l' : L} (hf : Frame l l') (h : K l) : K l' := by
+  obtain ⟨hk, _⟩ := hf
+  have h1 : l'.toks = l.toks := congrArg (·.1) hk
+  have h2 : l'.startOffset = l.startOffset := congrArg (·.2.2.1) hk
+  have h3 : l'.startPos = l.startPos := congrArg (·.2.2.2.1) hk
+  have h4 : l'.input = l.input := congrArg (·.2.2.2.2.1) hk
+  unfold K
+  rw [h1, h2, h3, h4]
+  exact h
+
+/-- the word read so far consists of whole runes -/
+def Ch (l : L) : Prop := ∃ pe, Walk l.input l.startOffset l.startPos l.endOffset pe
+
 /-- state between primitives: nothing read ahead; `m` is a lower bound of `endOffset` -/
 structure A (n m : Nat) (l : L) : Prop where
   size : l.input.size = n
@@ -134,6 +153,8 @@ structure A (n m : Nat) (l : L) : Prop where
   hi : l.endOffset ≤ n
   se : l.startOffset ≤ l.endOffset
   ok : OkErr l
+  ch : Ch l
+  k : K l
 
 /-- state right after a `next()` from an `A` state -/
 structure B (n m : Nat) (l : L) : Prop where
@@ -146,6 +167,9 @@ structure B (n m : Nat) (l : L) : Prop where
   hi : l.endOffset ≤ n + 1
   ok : OkErr l
   ne : l.current ≠ EOF → l.endOffset ≤ n
+  chp : ∃ pp, Walk l.input l.startOffset l.startPos l.prevEndOffset pp
+  ew : l.prevEndOffset < n → l.endOffset = l.prevEndOffset + (decodeRune l.input l.prevEndOffset).2
+  k : K l
 
 theorem decodeRune_width (inp : Bytes) (off : Nat) (h : off < inp.size) :
     1 ≤ (decodeRune inp off).2 ∧ off + (decodeRune inp off).2 ≤ inp.size := by
@@ -162,28 +186,35 @@ theorem decodeRune_width (inp : Bytes) (off : Nat) (h : off < inp.size) :
 
 theorem next_B {n m : Nat} {l : L} (h : A n m l) : B n m (next l).1 ∧ (next l).2 = (next l).1.current := by
   refine ⟨?_, rfl⟩
-  obtain ⟨hs, hlo, hhi, hse, hok⟩ := h
+  obtain ⟨hs, hlo, hhi, hse, hok, hch, hk⟩ := h
   by_cases hlt : l.endOffset < l.input.size
-  · have hw := decodeRune_width l.input l.endOffset hlt
-    refine ⟨hs, rfl, hlo, hhi, hse, ?_, ?_, hok, ?_⟩
+  · have hw := Verif.Proofs.Lexer.decodeRune_width l.input l.endOffset hlt
+    refine ⟨hs, rfl, hlo, hhi, hse, ?_, ?_, hok, ?_, hch, ?_, hk⟩
     · simp only [next, hlt, if_true]; omega
     · simp only [next, hlt, if_true]; omega
     · intro _; simp only [next, hlt, if_true]; omega
-  · refine ⟨hs, rfl, hlo, hhi, hse, ?_, ?_, hok, ?_⟩
+    · intro _; simp only [next, hlt, if_true]
+  · refine ⟨hs, rfl, hlo, hhi, hse, ?_, ?_, hok, ?_, hch, ?_, hk⟩
     · simp only [next, hlt, if_false]; omega
     · simp only [next, hlt, if_false]; omega
     · intro hne; exfalso; apply hne; simp only [next, hlt, if_false]
+    · intro h'; exfalso; have : (next l).1.prevEndOffset = l.endOffset := rfl; omega
 
-theorem B_A {n m : Nat} {l : L} (h : B n m l) (hne : l.current ≠ EOF) : A n (m + 1) l :=
-  ⟨h.size, by have := h.lo; have := h.lt; omega, h.ne hne, by have := h.sp; have := h.lt; omega, h.ok⟩
+theorem B_A {n m : Nat} {l : L} (h : B n m l) (hne : l.current ≠ EOF) : A n (m + 1) l := by
+  refine ⟨h.size, by have := h.lo; have := h.lt; omega, h.ne hne, by have := h.sp; have := h.lt; omega, h.ok, ?_, h.k⟩
+  have hlt : l.prevEndOffset < n := by have := h.ne hne; have := h.lt; omega
+  obtain ⟨pp, hpp⟩ := h.chp
+  have hst := Walk.step hpp (by rw [h.size]; exact hlt)
+  rw [← h.ew hlt] at hst
+  exact ⟨_, hst⟩
 
 theorem backup_A {n m : Nat} {l : L} (h : B n m l) : A n m (backupOne l) := by
   unfold backupOne
   simp only [h.cb, Bool.not_true, Bool.false_eq_true, if_false]
-  exact ⟨h.size, h.lo, h.phi, h.sp, h.ok⟩
+  exact ⟨h.size, h.lo, h.phi, h.sp, h.ok, h.chp, h.k⟩
 
 theorem A_mono {n m m' : Nat} {l : L} (h : A n m l) (hm : m' ≤ m) : A n m' l :=
-  ⟨h.size, by have := h.lo; omega, h.hi, h.se, h.ok⟩
+  ⟨h.size, by have := h.lo; omega, h.hi, h.se, h.ok, h.ch, h.k⟩
 
 theorem acceptWhileN_A {n m : Nat} (f : Rune → Bool) (hf : f EOF = false) (fuel : Nat) (l : L)
     (h : A n m l) (hfuel : n + 1 - l.endOffset ≤ fuel) : A n m (acceptWhileN fuel f l) := by
@@ -230,7 +261,7 @@ theorem scanStringN_A {n m : Nat} (fuel : Nat) (l : L)
           have hp2 : (next (next l).1).1.prevEndOffset = (next l).1.endOffset := rfl
           split
           · -- string template: rewind to the backslash
-            refine ⟨hb2.size, ?_, ?_, ?_, hb2.ok⟩
+            refine ⟨hb2.size, ?_, ?_, ?_, hb2.ok, h.ch, h.k⟩
             · show m ≤ (next l).1.prevEndOffset; rw [hp]; exact h.lo
             · show (next l).1.prevEndOffset ≤ n; rw [hp]; exact h.hi
             · show (next (next l).1).1.startOffset ≤ (next l).1.prevEndOffset; rw [hp]; exact h.se
@@ -261,33 +292,101 @@ theorem okErr_fail_limit (l : L) (h : OkErr l) : OkErr (l.fail .tokenLimit) := b
   · exact h
   · exact Or.inr rfl
 
+theorem fail_fields (l : L) (e : LexErr) :
+    (l.fail e).input = l.input ∧ (l.fail e).endOffset = l.endOffset ∧ (l.fail e).startOffset = l.startOffset ∧
+    (l.fail e).startPos = l.startPos ∧ (l.fail e).toks = l.toks := by
+  unfold L.fail; split <;> exact ⟨rfl, rfl, rfl, rfl, rfl⟩
+
+theorem Ch_fail (l : L) (e : LexErr) (h : Ch l) : Ch (l.fail e) := by
+  obtain ⟨h1, h2, h3, h4, _⟩ := fail_fields l e
+  unfold Ch; rw [h1, h2, h3, h4]; exact h
+
+theorem A_fail_limit {n m : Nat} (l : L) (h : A n m l) : A n m (l.fail .tokenLimit) := by
+  obtain ⟨h1, h2, h3, _, _⟩ := fail_fields l .tokenLimit
+  exact ⟨by rw [h1]; exact h.size, by rw [h2]; exact h.lo, by rw [h2]; exact h.hi, by rw [h2, h3]; exact h.se,
+    okErr_fail_limit l h.ok, Ch_fail _ _ h.ch, K_frame (frame_fail _ _) h.k⟩
+
+/-- the token a consuming `emit` appends -/
+def newTok (l : L) (ty : Nat) (nl : Bool) (ep : Pos) : Token :=
+  { ty, startOff := Int.ofNat l.startOffset, startPos := l.startPos, endOff := (l.endOffset : Int) - 1, endPos := ep, nl }
+
+/-- the token appended by a consuming `emit` is exact when it is good and its predecessors are -/
+theorem emit_tok_exact {n m : Nat} (l : L) (h : A n m l) (ep : Pos) (hep : endPos l = some ep) (ty : Nat) (nl : Bool) :
+    AllGood l.input l.toks →
+    good l.input (newTok l ty nl ep) →
+    Exact l.input (newTok l ty nl ep) ∧
+    ∃ pe, Walk l.input 0 ⟨1, 0⟩ l.endOffset pe ∧
+      pe = advance ep (decodeRune l.input (l.endOffset - 1)).1 := by
+  intro hall hgood
+  obtain ⟨p0, hw0, hsp, _⟩ := h.k
+  have hsp' := hsp hall
+  obtain ⟨pe, hch⟩ := h.ch
+  rw [hsp'] at hch
+  obtain ⟨hne, h0, hascii⟩ := hgood
+  simp only [newTok] at hne h0 hascii
+  have hlt : l.startOffset < l.endOffset := by
+    have : ((l.startOffset : Nat) : Int) ≤ (l.endOffset : Int) - 1 := hne
+    omega
+  have htn : ((l.endOffset : Int) - 1).toNat = l.endOffset - 1 := by omega
+  rw [htn] at hascii
+  obtain ⟨pq, hwq, hq, hpe⟩ := walk_last_ascii hch hlt hascii
+  have hepq : ep = pq := by
+    have := endPosWalk_exact hwq (by omega)
+    unfold endPos at hep
+    rw [hsp', this] at hep
+    exact (Option.some.inj hep).symm
+  subst hepq
+  refine ⟨⟨?_, ?_⟩, pe, walk_trans hw0 hch, ?_⟩
+  · show l.startPos = posOf l.input (Int.ofNat l.startOffset)
+    rw [hsp']; exact (walk_posOf hw0 _ rfl).symm
+  · show ep = posOf l.input ((l.endOffset : Int) - 1)
+    exact (walk_posOf (walk_trans hw0 hwq) _ (by omega)).symm
+  · rw [hpe, decodeRune_ascii l.input _ hq hascii]
+
 theorem emit_A {n m : Nat} (ty : Nat) (nl : Bool) (rs : Int × Pos) (consume : Bool) (l : L)
-    (h : A n m l) (h1 : 1 ≤ l.endOffset) : A n m (emit ty nl rs consume l) := by
+    (h : A n m l) (h1 : 1 ≤ l.endOffset)
+    (hc : (consume = false → ty = T.error) ∧ (consume = true → rs = (Int.ofNat l.startOffset, l.startPos))) :
+    A n m (emit ty nl rs consume l) := by
   unfold emit
   split
   · exact h
   · split
-    · exact ⟨by rw [← h.size]; exact congrArg (fun k => Array.size k.2.2.2.2.1) (frame_fail l _).1,
-        by rw [show (l.fail LexErr.tokenLimit).endOffset = l.endOffset by unfold L.fail; split <;> rfl]; exact h.lo,
-        by rw [show (l.fail LexErr.tokenLimit).endOffset = l.endOffset by unfold L.fail; split <;> rfl]; exact h.hi,
-        by rw [show (l.fail LexErr.tokenLimit).endOffset = l.endOffset by unfold L.fail; split <;> rfl,
-               show (l.fail LexErr.tokenLimit).startOffset = l.startOffset by unfold L.fail; split <;> rfl]; exact h.se,
-        okErr_fail_limit l h.ok⟩
+    · exact A_fail_limit l h
     · obtain ⟨q, hq⟩ := endPosWalk_isSome (l.endOffset - l.startOffset) l.input l.endOffset l.startOffset l.startPos
         (by have := h.hi; have := h.size; omega)
       have hq' : endPos l = some q := hq
       rw [hq']
       simp only []
+      obtain ⟨p0, hw0, hsp, hex⟩ := h.k
       cases consume with
-      | false => exact ⟨h.size, h.lo, h.hi, h.se, h.ok⟩
+      | false =>
+        have hty := hc.1 rfl
+        subst hty
+        refine ⟨h.size, h.lo, h.hi, h.se, h.ok, h.ch, p0, hw0, ?_, ?_, hex⟩
+        · intro hall; exact hsp (fun t ht => hall t (List.mem_cons_of_mem _ ht))
+        · intro _ herr; exact absurd herr (by simp [isError])
       | true =>
+        have hrs := hc.2 rfl
+        subst hrs
         simp only [if_true]
+        -- the claim for the new token
+        have hclaim : AllGood l.input l.toks → isError (newTok l ty nl q) = false →
+            good l.input (newTok l ty nl q) → Exact l.input (newTok l ty nl q) :=
+          fun hall _ hg => (emit_tok_exact l h q hq' ty nl hall hg).1
         split
         · rename_i hbad; have := h.hi; have := h.size; omega
-        · exact ⟨h.size, h.lo, h.hi, Nat.le_refl _, h.ok⟩
+        · -- the new word starts at `endOffset`
+          obtain ⟨pe, hch⟩ := h.ch
+          obtain ⟨pe0, hwe0⟩ := walk_repos hch p0
+          refine ⟨h.size, h.lo, h.hi, Nat.le_refl _, h.ok, ⟨_, Walk.refl _ _⟩, ?_⟩
+          by_cases hg : AllGood l.input (newTok l ty nl q :: l.toks)
+          · have hall : AllGood l.input l.toks := fun t ht => hg t (List.mem_cons_of_mem _ ht)
+            obtain ⟨_, pe', hwe', hpe'⟩ := emit_tok_exact l h q hq' ty nl hall (hg _ List.mem_cons_self)
+            exact ⟨pe', hwe', fun _ => hpe'.symm, hclaim, hex⟩
+          · exact ⟨pe0, walk_trans hw0 hwe0, fun hg' => absurd hg' hg, hclaim, hex⟩
 
 theorem emitType_A {n m : Nat} (ty : Nat) (l : L) (h : A n m l) (h1 : 1 ≤ l.endOffset) : A n m (emitType ty l) :=
-  emit_A _ _ _ _ _ h h1
+  emit_A _ _ _ _ _ h h1 ⟨fun h => by simp at h, fun _ => rfl⟩
 
 theorem emitError_A {n m : Nat} (l : L) (h : A n m l) (h1 : 1 ≤ l.endOffset) : A n m (emitError l) := by
   unfold emitError
@@ -295,7 +394,7 @@ theorem emitError_A {n m : Nat} (l : L) (h : A n m l) (h1 : 1 ≤ l.endOffset) :
     (by have := h.hi; have := h.size; omega)
   have hq' : endPos l = some q := hq
   rw [hq']
-  exact emit_A _ _ _ _ _ h h1
+  exact emit_A _ _ _ _ _ h h1 ⟨fun _ => rfl, fun h => by simp at h⟩
 
 theorem scanString_A {n m : Nat} (l : L) (h : A n m l) : A n m (scanString l) := by
   unfold scanString
